@@ -45,8 +45,8 @@ func (b *Builder) AddWithSequence(key, value []byte, seqNum uint64) error {
 	}
 
 	b.entries = append(b.entries, Entry{
-		Key:         append([]byte(nil), key...),   // Make copies to avoid references
-		Value:       append([]byte(nil), value...), // to external data
+		Key:         append([]byte(nil), key...), // Make copies to avoid references to external data
+		Value:       bytes.Clone(value),          // Clone keeps nil (tombstone) nil and an empty value non-nil
 		SequenceNum: seqNum,
 	})
 
